@@ -156,3 +156,110 @@ Example ex_f3 :
   (* no input changed at all *)
   (forall i, f_changed (d_in (ps_db (fst r)) i) = 1).
 Proof. vm_compute. repeat split. Qed.
+
+(* ---------------------------------------------------------------- the results theorems apply *)
+(* (Persist/PTop.v; non-vacuity of their hypotheses on concrete histories) *)
+From Salsa.Persist Require Statement PTop.
+
+(* a program whose persisted functions only call persisted functions:
+   plain(0) = lru_fn(0) + input 0.1, lru_fn(0) = input 0.0; families 0 and 1 are persisted *)
+Definition prog_cl (q : qkey) : body :=
+  if key_eqb q (0, 0) then CallQ (1, 0) (fun a => RdIn (0, 1) (fun b => Ret ((a + b) mod 256)))
+  else if key_eqb q (1, 0) then RdIn (0, 0) Ret
+  else Ret 0.
+Definition rank_cl (q : qkey) : nat := if key_eqb q (0, 0) then 1%nat else 0%nat.
+
+(* requests; a write with durability HIGH; a snapshot; a write after the snapshot (lost by the
+   restore); restore; the dependency's function is called once (see F1); a write to a leaf of a
+   restored memo; requests *)
+Definition ops_cl : list op :=
+  [OGet (0, 0); OSet (0, 1) 5 (Some 2); OGet (0, 0); OSnapshot; OSet (0, 0) 9 None; OGet (0, 0);
+   ORestore; OGet (1, 0); OGet (0, 0); OSet (0, 0) 7 None; OGet (0, 0); OSynth 1; OGet (0, 0)].
+
+Lemma prog_cl_calls q q' : calls (prog_cl q) q' -> q = (0, 0) /\ q' = (1, 0).
+Proof.
+  unfold prog_cl. destruct (key_eqb_spec q (0, 0)) as [-> | _].
+  - intros Hc. split; [reflexivity|].
+    inversion Hc as [ | ? ? ? ? Hc1 | | | | ]; subst; [reflexivity|].
+    inversion Hc1 as [ | | ? ? ? ? Hc2 | | | ]; subst. inversion Hc2.
+  - destruct (key_eqb_spec q (1, 0)) as [-> | _]; intros Hc.
+    + inversion Hc as [ | | ? ? ? ? Hc1 | | | ]; subst. inversion Hc1.
+    + inversion Hc.
+Qed.
+
+Example ex_cl_hyps :
+  calls_below prog_cl rank_cl /\ (forall q, (rank_cl q < FUEL)%nat) /\
+  Statement.persisted_closed prog_cl pfam /\
+  Forall Statement.dur_op ops_cl /\ Statement.wf_ops false false ops_cl /\
+  Statement.known_class_free prog_cl noeq pfam [1] lru2 FUEL FUEL (pinit iv (fun _ => 0) lru2) ops_cl.
+Proof.
+  split; [|split; [|split; [|split; [|split]]]].
+  - intros q q' Hc. destruct (prog_cl_calls q q' Hc) as [-> ->]. vm_compute. lia.
+  - intros q. unfold rank_cl, FUEL. destruct (key_eqb q (0, 0)); lia.
+  - intros q q' _ Hc. destruct (prog_cl_calls q q' Hc) as [-> ->]. reflexivity.
+  - repeat constructor. cbn. lia.
+  - cbn. repeat split.
+  - vm_compute. repeat split; discriminate.
+Qed.
+
+(* ... so C26_results_closed applies: every request of this history returns the from-scratch
+   value; and this is what they return *)
+Example ex_cl_results :
+  Statement.results_ok prog_cl noeq pfam [1] lru2 FUEL FUEL FUEL (pinit iv (fun _ => 0) lru2) ops_cl /\
+  snd (run prog_cl [1] lru2 ops_cl)
+  = [POk 2; POk 0; POk 6; POk 0; POk 0; POk 14; POk 0; POk 1; POk 6; POk 0; POk 12; POk 0; POk 12].
+Proof.
+  split; [|vm_compute; reflexivity].
+  destruct ex_cl_hyps as (A & B & C & D0 & E0 & F0).
+  apply (PTop.results_closed prog_cl noeq pfam [1] lru2 rank_cl A FUEL B FUEL FUEL B C iv (fun _ => 0) ops_cl);
+    [intros i; lia | exact D0 | exact E0 | exact F0].
+Qed.
+
+(* a history WITHOUT restore over the partial_query program (a persisted function over a
+   non-persisted one; the snapshot flattens): C26_results_no_restore applies *)
+Definition ops_nr : list op :=
+  [OGet (0, 0); OSnapshot; OSet (0, 0) 7 (Some 1); OGet (0, 0); OSnapshot; OSetCell 3 1; OSynth 0; OGet (3, 0)].
+
+Lemma prog_pq_calls q q' : calls (prog_pq q) q' -> q = (0, 0) /\ q' = (3, 0).
+Proof.
+  unfold prog_pq. destruct (key_eqb_spec q (0, 0)) as [-> | _].
+  - intros Hc. split; [reflexivity|].
+    inversion Hc as [ | ? ? ? ? Hc1 | | | | ]; subst; [reflexivity | inversion Hc1].
+  - destruct (key_eqb_spec q (3, 0)) as [-> | _]; intros Hc.
+    + inversion Hc as [ | | ? ? ? ? Hc1 | | | ]; subst. inversion Hc1.
+    + inversion Hc.
+Qed.
+
+Example ex_nr_results :
+  Statement.results_ok prog_pq noeq pfam [] nolru FUEL FUEL FUEL (pinit iv (fun _ => 0) nolru) ops_nr /\
+  snd (run prog_pq [] nolru ops_nr) = [POk 2; POk 0; POk 0; POk 8; POk 0; POk 0; POk 0; POk 7].
+Proof.
+  split; [|vm_compute; reflexivity].
+  assert (A : calls_below prog_pq rank_pq).
+  { intros q q' Hc. destruct (prog_pq_calls q q' Hc) as [-> ->]. vm_compute. lia. }
+  assert (B : forall q, (rank_pq q < FUEL)%nat).
+  { intros q. unfold rank_pq, FUEL. destruct (key_eqb q (0, 0)); lia. }
+  apply (PTop.results_no_restore prog_pq noeq pfam [] nolru rank_pq A FUEL B FUEL FUEL B iv (fun _ => 0) ops_nr).
+  - intros i; lia.
+  - repeat constructor. cbn. lia.
+  - cbn. repeat split.
+  - cbn. intuition discriminate.
+  - vm_compute. repeat split; discriminate.
+Qed.
+
+(* NOT covered by a theorem (prog_pq is not persisted_closed), computed: snapshot, restore, a
+   later write to the flattened leaf of the restored memo, and requests that return the
+   from-scratch values (ex_pq_write above is the short form) *)
+Definition ops_flat : list op :=
+  [OGet (0, 0); OSnapshot; ORestore; OGet (0, 0); OSet (0, 0) 7 None; OGet (0, 0); OGet (3, 0);
+   OSnapshot; OSet (0, 0) 8 (Some 1); ORestore; OGet (0, 0); OSynth 0; OGet (0, 0)].
+
+Example ex_flat_results :
+  let r := run prog_pq [] nolru ops_flat in
+  snd r = [POk 2; POk 0; POk 0; POk 2; POk 0; POk 8; POk 7; POk 0; POk 0; POk 0; POk 8; POk 0; POk 8] /\
+  Statement.wf_ops false false ops_flat /\
+  ~ Statement.persisted_closed prog_pq pfam.
+Proof.
+  split; [vm_compute; reflexivity|]. split; [cbn; repeat split|].
+  intros Hc. specialize (Hc (0, 0) (3, 0) eq_refl (calls_here (3, 0) _)). discriminate Hc.
+Qed.
